@@ -1036,7 +1036,9 @@ func (a *align) AddGaps(lenprop float64, prop float64) {
 
 func (a *align) Append(al Alignment) (err error) {
 	al.IterateAll(func(name string, sequence []uint8, comment string) bool {
-		err = a.AddSequenceChar(name, sequence, comment)
+		// The appended rows are copies: two alignments - or two rows, when an
+		// alignment is appended to itself - do not share their residues
+		err = a.AddSequenceChar(name, append([]uint8{}, sequence...), comment)
 		return err != nil
 
 	})
